@@ -535,7 +535,9 @@ def make_sd(tt: list[list[int]], cfg: dict | None = None, names: list[str] | Non
         c0["minimum_simulation_budget"] = cfg0["simbudget"]
         c0["nfvs_size_threshold"] = cfg0["nfvsthr"]
         return SuccessionDiagram(api_network(tt, names), c0)
-    text = text if text is not None else render_bnet(tt, names)
+    if text is None:
+        # half of the networks with source variables present them as free inputs (no update function)
+        text = render_bnet(tt, names, free_inputs=(sum(map(sum, tt)) % 2 == 0))
     if fmt != "bnet" and not text.lstrip().startswith(("<", "$", "#")) and "->" not in text and "-?" not in text:
         net0 = BooleanNetwork.from_bnet(text)
         text = net0.to_aeon() if fmt == "aeon" else net0.to_sbml()
